@@ -7,10 +7,16 @@ CLAIMED = {
          "CFG must-pass-through / dominance / guard rules, who-may-call and who-may-write tables, reaching-definition dataflow (STALE, NOTOUCH) over the whole library"),
  "C02": ("Chase-Lev skeleton (fence, last-element CAS, bottom restore, steal order, publish order, growth), writers table, owner discipline, steal index table, idle loop",
          "CFG dominance / fence / guard rules + enumerated index tables over work_stealing_deque.c and the scheduler"),
+ "C03": ("lock/trylock/unlock decision tables over the atomic counter's old value, memory orders, waker loop (yield not spin, exit only after count wakes, node hand-back), single consumer and counter-writer tables",
+         "enumerated forced-branch tables over atomic results + CFG dominance / who-may-call rules on fiber_mutex.c and the shared waker"),
+ "C06": ("wait/trywait/post decision tables over the counter value and wake result, increment-after-wake order, no exit without wake-or-increment, counter-writer table, waker count semantics",
+         "enumerated forced-branch tables over atomic results + CFG dominance rules on fiber_semaphore.c"),
  "C08": ("fd-table bounds followed inter-procedurally from the libc shims, should_block truth table, F_SETFL/FIONBIO mode tables, retry-template agreement of all shims under enumerated scenarios, fd>=0 comparisons, shim pointer resolution, close/poller lock and order rules",
          "inter-procedural forced-branch reachability over enumerated descriptor classes and scenarios (BOUNDS / TABLE / SIBLING rules) on fiber_io.c and fiber_event_native.c"),
  "C09": ("sleep registration under the sleep lock with deferred unlock, poller lock/unlink/no-touch rules, strict expiry comparison table, deadline arithmetic evaluated with C integer widths over boundary durations, unit conversion and routing tables of sleep/usleep/nanosleep",
          "CFG lock-pair / dominance rules, reaching-definition NOTOUCH dataflow, enumerated arithmetic tables with C widths"),
+ "C12": ("arrival table over (count, arrival number): serial path, wake count, return values; counter-writer table; round-separation certificate with an enumerated list-selection table",
+         "enumerated forced-branch tables + certificate recognition on fiber_barrier.c and the shared waker"),
  "C10": ("fairness certificate: push/pop deque fields differ, swap only on empty, successor re-queue",
          "CFG/AST who-pushes-where + guarded-swap rules over the scheduler"),
 }
